@@ -44,8 +44,12 @@ var fams = map[string]*Fam{
 		Mod: map[string]interface{}{"P": MP{}, "O": MO{}, "M": MM{}, "T": MT{}, "G": MG{}}},
 	"R": {Name: "R", Parts: []string{"S", "N"}, Types: []string{"str", "int"},
 		Mod: map[string]interface{}{"P": RP{}, "O": RO{}, "M": RM{}, "T": RT{}, "G": RG{}}},
+	"V": {Name: "V", Parts: []string{"N", "S"}, Types: []string{"int", "str"},
+		Mod: map[string]interface{}{"P": VP{}, "O": VO{}, "M": VM{}, "T": VT{}, "G": VG{}}},
+	"B": {Name: "B", Parts: []string{"K"}, Types: []string{"bytes"},
+		Mod: map[string]interface{}{"P": BP{}, "O": BO{}, "M": BM{}, "T": BT{}, "G": BG{}}},
 }
-var famNames = []string{"I", "S", "C", "M", "R"}
+var famNames = []string{"I", "S", "C", "M", "R", "V", "B"}
 
 // Rel describes one relation: which Go fields of the parent and of the child are matched.
 type Rel struct {
@@ -359,6 +363,12 @@ func kpOfRaw(typ string, ptr bool, raw interface{}) KP {
 	default:
 		panic(fmt.Sprintf("raw value %T", raw))
 	}
+	if typ == "bytes" { // a non-nil []byte is never "zero" and prints its content
+		if !isStr {
+			s = fmt.Sprint(n)
+		}
+		return KP{C: "KPStr", S: s}
+	}
 	if typ == "str" {
 		if !isStr {
 			s = fmt.Sprint(n)
@@ -395,6 +405,23 @@ func kpOfField(v reflect.Value) KP {
 		default:
 			return KP{C: "KPInt", I: e.Int()}
 		}
+	}
+	switch x := v.Interface().(type) {
+	case sql.NullString: // driver.Valuer: ToStringKey prints Value()
+		if !x.Valid {
+			return KP{C: "KNil"}
+		}
+		return KP{C: "KPStr", S: x.String}
+	case sql.NullInt64:
+		if !x.Valid {
+			return KP{C: "KNil"}
+		}
+		return KP{C: "KPInt", I: x.Int64}
+	case []byte:
+		if x == nil {
+			return KP{C: "KNil"}
+		}
+		return KP{C: "KPStr", S: string(x)}
 	}
 	switch v.Kind() {
 	case reflect.String:
@@ -523,7 +550,11 @@ func (e *Env) load(f *Fam, in Input) {
 				} else {
 					cols = append(cols, f.col(e.db, m, k))
 				}
-				args = append(args, r.F[k].arg())
+				a := r.F[k].arg()
+				if str, ok := a.(string); ok && f.Types[0] == "bytes" {
+					a = []byte(str) // binary keys are stored (and bound by gorm) as blobs
+				}
+				args = append(args, a)
 			}
 			tbl := f.rels()["Tags"].JTable
 			if m != "J" {
@@ -655,6 +686,10 @@ func attached(obj reflect.Value, name string) ([]int64, []reflect.Value) {
 	switch fv.Kind() {
 	case reflect.Ptr:
 		if !fv.IsNil() {
+			ids, objs = append(ids, uidOf(fv)), append(objs, fv)
+		}
+	case reflect.Struct: // relation field held by value: a zero struct means "nothing attached"
+		if uidOf(fv) != 0 {
 			ids, objs = append(ids, uidOf(fv)), append(objs, fv)
 		}
 	case reflect.Slice:
@@ -1130,6 +1165,8 @@ func genPart(r *lib.Rng, typ string, edge bool) Val {
 			return VI(0)
 		}
 		return VI(int64(r.Range(1, 7)))
+	case "bytes":
+		return VS(lib.Pick(r, []string{"a", "b", "c", "a_b", "b_c", "_", "nil", "\\x", "k1", "k2", "k\x01z"}))
 	case "int":
 		if !edge && r.Chance(1, 12) {
 			return VI(0)
